@@ -101,7 +101,7 @@ type c08op struct {
 
 func init() {
 	Registry["C08"] = func(c *Ctx) {
-		c.R.Rule = "breadth-first search over histories of <= n operations from {grog build on machine A, grog build on machine B, grog build on A with the remote disabled (pre-populates A's local cache only), wipe A's local cache, edit an input} where A and B are separate checkouts with separate GROG_ROOTs sharing one remote object store; the remote is a directory-backed fake attached behind the REAL RemoteWrapper through the build overlay, every build is run by the real binary. After every successful remote-enabled build: the remote store passes the offline audit (every target result decodes and references only blobs present in the remote, recursively through trees; every blob hashes to its digest), every result written locally by that build is in the remote, the executed set equals a reference model (nothing that any machine already built with the remote enabled is executed again; outputs identical to a from-scratch build), and a follow-up build without the remote executes nothing (the local cache was filled while reading). Then, for every remote operation instance of two histories, a fault is injected (Get error / reader failing after the first byte / missing object, Put error before or after reading the body or without reading it, Head error / false miss): the build must end with exit 0 and correct outputs or with a non-zero exit, never hang, never leave a dangling reference in the remote. Non-trivial = a build with at least one cache hit served through the remote. Eviction: the remote loses every blob while it keeps the target results and one target is not reproducible: machine B re-executes, afterwards the remote passes the audit (the new result replaced the old one) and a third machine gets B's bytes without executing anything."
+		c.R.Rule = "breadth-first search over histories of <= n operations from {grog build on machine A, grog build on machine B, grog build on A with the remote disabled (pre-populates A's local cache only), wipe A's local cache, edit an input} where A and B are separate checkouts with separate GROG_ROOTs sharing one remote object store; the remote is a directory-backed fake attached behind the REAL RemoteWrapper through the build overlay, every build is run by the real binary. After every successful remote-enabled build: the remote store passes the offline audit (every target result decodes and references only blobs present in the remote, recursively through trees; every blob hashes to its digest), every result written locally by that build is in the remote, the executed set equals a reference model (nothing that any machine already built with the remote enabled is executed again; outputs identical to a from-scratch build), and a follow-up build without the remote executes nothing (the local cache was filled while reading). Then, for every remote operation instance of two histories, a fault is injected (Get error / reader failing after the first byte / missing object, Put error before or after reading the body or without reading it, Head error / false miss): the build must end with exit 0 and correct outputs or with a non-zero exit, never hang, never leave a dangling reference in the remote. Non-trivial = a build with at least one cache hit served through the remote. Eviction: the remote loses every blob while it keeps the target results and one target is not reproducible: machine B re-executes, afterwards the remote passes the audit (the new result replaced the old one) and a third machine gets B's bytes without executing anything. One key: 2-3 concurrent read-throughs, two write-throughs and a read-through next to a write-through of one key through the real RemoteWrapper over the real FileSystemCache, every file-system call of fs.go and every remote operation a scheduling point, every schedule with <= 2/3 deviations: every reader gets the object's bytes, nothing fails while the remote is healthy, both layers end with the right bytes, nothing hangs."
 		c.R.Assume("the S3/GCS clients themselves cannot run offline: the seam is CacheBackend behind backends.NewRemoteWrapper (real code); the fake remote stores objects atomically like an object store PUT", "both machines address the same remote namespace (the fake ignores bucket/prefix/workspace identity; key construction of the real clients is unit-tested by the repository)")
 		grog, _ := faultBinary(c)
 		if !backendDecorated {
@@ -575,5 +575,7 @@ func init() {
 		}
 		// concurrent uploads of the same digest (two targets with identical output content), with a failing Put
 		casRace(c, "C08")
+		// concurrent read- and write-throughs of one key through the real wrapper over the real local layer
+		oneKey(c, "C08")
 	}
 }
